@@ -195,8 +195,11 @@ def _jobs_c07(tier):
     jobs = []
     for s in ["RPRS", "RRS", "RPRFS"]:
         jobs.append(spec_job(f"M1/C07/{s}", "vfy.m1", "scenario_c07", 12 if q else 75, store=s, N=2, K=0 if q else 1, T=2 if q else 3))
+        jobs.append(spec_job(f"M1/C07/{s}/caller-outside-any-process", "vfy.m1", "scenario_c07", 8 if q else 40, store=s, N=1, K=0, T=2, OUTSIDE=True))
     for s in ["BUF_FIFO", "BUF_LIFO", "FLEET", "SBELT_ACC", "CBELT_ACC", "CBELT_NOACC"]:
         jobs.append(spec_job(f"M1/C07/{s}", "vfy.m1", "scenario_c07", 14 if q else 75, store=s, N=1 if q else 2, K=0 if q else 1, T=2))
+        # one of the two callers is set-up code outside any process (its tokens are owned by "no process")
+        jobs.append(spec_job(f"M1/C07/{s}/caller-outside-any-process", "vfy.m1", "scenario_c07", 8 if q else 40, store=s, N=1, K=0, T=2, OUTSIDE=True))
         if q and s in ("BUF_FIFO", "FLEET"):
             # two items, so that both caller processes can hold a granted retrieval while one of them misuses the other's token
             jobs.append(spec_job(f"M1/C07/{s}/N2", "vfy.m1", "scenario_c07", 14, store=s, N=2, K=0, T=2))
@@ -354,7 +357,8 @@ def fan_jobs(pid, tier, names=None, extra_kw=None, budget=None):
 def srcfan_jobs(pid, tier):
     J = []
     for name, kw in (("fa", dict()), ("fa-one-sink", dict(sink_fanin=True)), ("rr", dict(src_sel="ROUND_ROBIN")), ("generator", dict(src_sel="generator", n_items=3)),
-                     ("nonblocking-fa", dict(blocking=False))):
+                     ("nonblocking-fa", dict(blocking=False)), ("nonblocking-rr", dict(blocking=False, src_sel="ROUND_ROBIN", n_items=5)),
+                     ("nonblocking-callable", dict(blocking=False, src_sel="callable", n_items=3))):
         kw = dict(kw)
         kw["props"] = (pid,)
         if tier != "quick":
@@ -422,7 +426,7 @@ PROPS["C15"] = {
     "explanation": M2_EXPL + "the edge on which every item is pulled/pushed is compared with the policy's answers (ROUND_ROBIN k mod n, constant index, user callable / generator whose answers "
                    "the solver chooses), FIRST_AVAILABLE must not cancel a granted request on a lower-index edge in the round in which it commits, and the recorded selection history must equal the routing.",
     "jobs": lambda tier: fan_jobs("C15", tier, names=["fanin-fa", "fanin-fa-indelay", "fanin-fa-w2-tie", "fanout-fa", "fanout-w2-tie", "nb-machine-fa", "nb-machine-rr", "rr-in", "rr-out", "rr-both", "idx-out", "callable-in", "generator-out", "fanout3-w3", "fanout-sink-fanin", "fanout-sink-fanin-tie", "line-srcfa", "fanin-fa-srcfa", "fanin3-fa",
-                                                     "nb-machine-w2-fanout-tie", "nb-machine-w2-fleet-buffer-tie", "nb-machine-fleet-out", "nb-machine-cconv-out-w2-tie"]) + srcfan_jobs("C15", tier) + pk_jobs_late("C15", tier, ["r11-rr2", "r13-nonblocking-split", "r12-fa2"]) + [
+                                                     "nb-machine-w2-fanout-tie", "nb-machine-w2-fleet-buffer-tie", "nb-machine-fleet-out", "nb-machine-cconv-out-w2-tie"]) + srcfan_jobs("C15", tier) + pk_jobs_late("C15", tier, ["r11-rr2", "r13-nonblocking-split", "r12-fa2", "no-combiner-two-feeds-callable-in", "no-combiner-two-feeds-rr-in", "no-combiner-two-feeds-fa-in", "r13-nb-rr2-split"]) + [
         {"name": "M0/selectors", "spec": ("vfy.m0", "selector_scenario", dict(nmax=4 if tier == "quick" else 6)), "budget_s": 20 if tier == "quick" else 60, "bounds": "RoundRobin_edge_selector and _get_*_edge_index of all node classes with out-of-range answers"}],
     "required_witnesses": ["C15:routing-checked", "C15:history-checked", "C15:range-checked"],
     "nontrivial_witnesses": ["complete"],
@@ -594,6 +598,9 @@ def pk_cfgs(tier):
     C["r12-comb-only"] = dict(recipe=(1, 2), n_pallets=2, comb_only=True, out_delay="sym")
     C["r13-nb-rr2-split"] = dict(recipe=(1, 3), n_pallets=2, split_out=2, split_sel="ROUND_ROBIN", blocking=True, split_blocking=False, out_delay="sym-first", sym=("ii", "sd"), item_cap=3)
     C["r12-nb-idx-split"] = dict(recipe=(1, 2), n_pallets=2, split_sel=0, blocking=True, split_blocking=False, out_delay="sym", sym=("ip", "sd"))
+    C["no-combiner-two-feeds-callable-in"] = dict(recipe=(1,), n_pallets=2, no_combiner=True, second_feed=True, split_in_sel="callable", sym=("ip",))
+    C["no-combiner-two-feeds-rr-in"] = dict(recipe=(1,), n_pallets=2, no_combiner=True, second_feed=True, split_in_sel="ROUND_ROBIN", sym=("ip",))
+    C["no-combiner-two-feeds-fa-in"] = dict(recipe=(1,), n_pallets=2, no_combiner=True, second_feed=True, split_in_sel="FIRST_AVAILABLE", sym=("ip", "sd"))
     # two-stage packing: loaded pallets of the first combiner are the pallets of a second one
     C["two-stage-r11-r12"] = dict(recipe=(1, 1), recipe2=(1, 2), n_pallets=2, sym=("ii",))
     C["two-stage-r11-r11-slow-consumer"] = dict(recipe=(1, 1), recipe2=(1, 1), n_pallets=3, sym=("ip",), comb_only=True, out_delay="sym", mid_cap=1)
@@ -686,6 +693,10 @@ def combo_cfgs(tier):
     for a in kinds:
         C[f"w2-2src-{a}"] = light(dict(e1=a, e2=a, w=2, n_src=2, n_items=2))
         C[f"w2-2src-buffer-{a}-cap1"] = light(dict(e1="buffer", e2=a, w=2, n_src=2, n_items=2, cap2=1))
+    C["ctor-edges-buffer-buffer"] = dict(e1="buffer", e2="buffer", order="ctor-edges")
+    C["ctor-edges-fanin-rr"] = dict(e1="buffer", e2="buffer", order="ctor-edges", n_src=2, in_sel="ROUND_ROBIN", n_items=2)
+    C["ctor-edges-fanout-w2"] = dict(e1="buffer", e2="buffer", order="ctor-edges", n_out=2, w=2, cap2=1)
+    C["fleet-delay0-w2-tie"] = dict(e1="buffer", e2="fleet", w=2, n_src=2, n_items=2, sym=("pd",), fdelay=0)
     C["edges-first-buffer-cconv"] = dict(e1="buffer", e2="cconv", order="edges-first")
     C["edges-first-cconv-buffer"] = dict(e1="cconv", e2="buffer", order="edges-first", w=2)
     C["rr-in-buffer"] = dict(e1="buffer", e2="buffer", n_src=2, in_sel="ROUND_ROBIN", n_items=2)
